@@ -1,7 +1,7 @@
 from select     import select
 from subprocess import PIPE, STDOUT, Popen
-from threading  import Thread, Condition, current_thread, main_thread
-from time       import time
+from threading  import Thread, Condition, Lock, current_thread, main_thread
+from time       import time, sleep
 
 import sys
 import signal
@@ -115,27 +115,85 @@ class _SubprocessThread(Thread):
             self.stderr_result = output_as_str(stderr_r)
 
 
+class RunningProcesses(object):
+    """The processes started by run() on behalf of one owner, for instance
+       the worker threads of a scheduler. An owner that needs to stop,
+       for instance because the main thread was interrupted, uses
+       kill_all_and_refuse_more()."""
+
+    def __init__(self):
+        self._lock = Lock()
+        self._threads = {}
+        self._refuse = False
+
+    def start(self, thread, uses_sudo):
+        with self._lock:
+            if self._refuse:
+                raise KeyboardInterrupt()
+            thread.start()
+            self._threads[thread] = uses_sudo
+
+    def discard(self, thread):
+        with self._lock:
+            self._threads.pop(thread, None)
+            return self._refuse
+
+    def kill_all_and_refuse_more(self, kill_tree=True):
+        with self._lock:
+            self._refuse = True
+            threads = list(self._threads.items())
+
+        for thread, uses_sudo in threads:
+            # wait until the process was started, or could not be started
+            while (thread._pid is None and thread.exception is None  # pylint: disable=protected-access
+                   and thread.is_alive()):
+                sleep(0.001)
+            if (thread._pid is not None and thread.returncode is None  # pylint: disable=protected-access
+                    and thread.exception is None):
+                kill_process(thread.get_pid(), kill_tree, None,
+                             deliver_kill_signal if uses_sudo else None)
+
+
 def _print_keep_alive(seconds_since_start):
     print("Keep alive, current job runs for %dmin\n" % (seconds_since_start / 60))
 
 
 def run(args, env, cwd=None, shell=False, kill_tree=True, timeout=-1,
         verbose=False, stdout=PIPE, stderr=PIPE, stdin_input=None,
-        keep_alive_output=_print_keep_alive, uses_sudo=False):
+        keep_alive_output=_print_keep_alive, uses_sudo=False, running=None):
     """
     Run a command with a timeout after which it will be forcibly
-    killed.
+    killed. If given, `running` is a RunningProcesses object that keeps
+    track of the process while it runs.
     """
     _setup_signal_handling_if_needed()
     executable_name = args.split(" ", 1)[0]
 
     thread = _SubprocessThread(executable_name, args, env, shell, cwd, verbose, stdout,
                                stderr, stdin_input)
+    if running is None:
+        return _wait_for_completion(thread, thread.start,
+                                    kill_tree, timeout, keep_alive_output, uses_sudo)
+
+    try:
+        result = _wait_for_completion(thread, lambda: running.start(thread, uses_sudo),
+                                      kill_tree, timeout, keep_alive_output, uses_sudo)
+    finally:
+        was_stopped = running.discard(thread)
+
+    if was_stopped:
+        # the process was killed because its owner is stopping,
+        # it is not a result of the benchmark
+        raise KeyboardInterrupt()
+    return result
+
+
+def _wait_for_completion(thread, start_thread, kill_tree, timeout, keep_alive_output, uses_sudo):
     was_interrupted = False
 
     try:
         # an interrupt may already arrive while we wait for the thread to start
-        thread.start()
+        start_thread()
         _join_with_keep_alive(keep_alive_output, thread, timeout)
     except KeyboardInterrupt:
         was_interrupted = True
